@@ -29,9 +29,18 @@ class LakeLock:
 
 
 def lake_build(targets: list[str], timeout: int = 1800) -> tuple[bool, str]:
+    import re
+    import time
     with LakeLock():
-        p = subprocess.run(["lake", "build", *targets], cwd=LEAN, capture_output=True, text=True, timeout=timeout)
-    return p.returncode == 0, (p.stdout + p.stderr)
+        for attempt in range(3):
+            p = subprocess.run(["lake", "build", *targets], cwd=LEAN, capture_output=True, text=True, timeout=timeout)
+            log = p.stdout + p.stderr
+            # a failure WITHOUT any Lean diagnostic (`error: <file>.lean:line:col`) is the build tool's own I/O trouble (another lake
+            # process touching .lake at the same moment): retried, it is not a statement about any theorem
+            if p.returncode == 0 or re.search(r"error: [^\s:]+\.lean:\d+:\d+", log):
+                break
+            time.sleep(2 + 3 * attempt)
+    return p.returncode == 0, log
 
 
 def strip_comments(src: str) -> str:
